@@ -216,6 +216,22 @@ func genC08(env *core.Env, emit func(core.Case)) {
 		}
 		run(mut, r.IntN(4) != 0, client, chunks, backendFlight())
 	}
+	// retried hellos of every kind (well-formed and ill-formed), drained with several read sizes
+	for rep := 0; rep < env.Pick(2, 12); rep++ {
+		for _, rc := range retryCases(r) {
+			idx++
+			s, first, rd := runRetryCase(rc, []int{1, 5, 512, 70000}[r.IntN(4)])
+			outcome := first.Err + "/" + rd.Err
+			w := ""
+			if first.Err == "panic" || rd.Err == "panic" {
+				w = "panic: " + first.Panic + rd.Panic
+			}
+			s.X("no call panics on a retried hello of kind "+rc.Kind, w)
+			emit(core.Case{Name: fmt.Sprintf("retry-%s/%d", rc.Kind, idx), Stream: "retry", Ops: s.Ops, Key: "retry-" + rc.Kind + "/" + outcome,
+				Sig: "retry-" + rc.Kind + "/" + outcome, Sample: map[string]any{"mutator": "retry-" + rc.Kind, "outcome": outcome}})
+			env.Count("retry/" + rd.Err)
+		}
+	}
 	// stall at every byte offset of the first record under a deadline; heap growth
 	{
 		_, sealed := validTuple()
